@@ -27,7 +27,9 @@ def anchors():
 
 def ingest_one(src):
     pid = os.path.basename(os.path.dirname(src.rstrip("/")))
-    sid = f"{pid}-{os.path.basename(src.rstrip('/'))}"
+    letter = os.path.basename(src.rstrip('/'))
+    rename = dict(kv.split("=") for kv in os.environ.get("SEED_RENAME", "").split(",") if "=" in kv)
+    sid = f"{pid}-{rename.get(letter, letter)}"
     patch, demo = os.path.join(src, "patch.diff"), os.path.join(src, "demo.py")
     if not (os.path.exists(patch) and os.path.exists(demo)):
         return sid, "missing files"
